@@ -65,7 +65,7 @@ CHECKS = {
              "lengths agree or missing steps are ignored; --force still fails on a length mismatch; sequence vs single file is "
              "non-zero; merged statuses are sticky. Tied to the CLI by differential runs on .pvd sequences (deviating step at every "
              "position, all option combinations) and to FieldDataSequence by repeated / partial iteration.",
-        note=TB + "Per-step comparison results are abstract (passed / failed / domain-failed); XDMF sources are not exercised in the quick tier.",
+        note=TB + "Per-step comparison results are abstract (passed / failed / domain-failed); both .pvd and XDMF time-series sources are exercised.",
         technique="Coq proof of the sequence model + model/implementation correspondence", ref="7 (C15)"),
     "C20": dict(
         text="Theorems: report counts equal the counts of its test cases; one case per reported comparison plus at most one case "
